@@ -899,7 +899,10 @@ def gen_input(rng, focus='all'):
         tags += [st[3][1] for st in all_stages(prog) if isinstance(st[3], list) and st[3][0] == 'expectFailure']
         if prog[1] is not None:
             tags += [prog[1][1]] * 3
-        if tags:
+        # not next to a user handler that reports a skip with whatever details there are: through a result without details
+        # its reason is the empty string too, and the canonical form could not tell the two empty reasons apart
+        own_skip = any(rep[0] != 'std' and rep[-1] == 'skip' for _, rep in prog[6])
+        if tags and not own_skip:
             hints.append(['empty-reason', rng.choice(tags)])
     if prog[1] is not None:
         k = rng.randrange(8)
